@@ -157,6 +157,7 @@ type fnTrans struct {
 	seqViews      map[string]Term
 	ghostParams   []bound
 	usedImmut     map[string]bool
+	usedChanInv   map[string]bool
 	locPtrs       map[string]Term
 	lockGhosts    map[string]bound
 	callSeq       int
@@ -1093,6 +1094,9 @@ func (t *fnTrans) pass() {
 	t.usedContracts, t.usedLocks = map[string]*FuncContract{}, map[string]bool{}
 	if t.usedImmut == nil {
 		t.usedImmut = map[string]bool{}
+	}
+	if t.usedChanInv == nil {
+		t.usedChanInv = map[string]bool{}
 	}
 	t.axiomTerms, t.extraQueries, t.usedAxioms, t.optAxioms = nil, nil, nil, map[string]Term{}
 	t.seqViews, t.seqFacts = nil, nil
